@@ -248,6 +248,23 @@ func reach(c *explore.Ctx, visit func(scope string, idx int64, st *state)) {
 			emit("R0-EXTREME", int64(ei), &state{desc: desc, bytes: b, n: nn, orig: seg, want: model.Build(e.Batch), mode: 1025})
 		}
 	}
+	// the ZOO (segments of unusual make shared by all read-side properties)
+	if !c.Replay || c.ReplayScope == "R0-ZOO" {
+		save := c.ReplayScope
+		if c.Replay {
+			c.ReplayScope = "ZOO"
+		}
+		zooEach(c, true, func(idx int64, z *zooSeg) {
+			c.R.Evaluations--
+			c.R.Nontrivial--
+			c.ReplayScope = save
+			emit("R0-ZOO", idx, &state{desc: "ZOO " + z.name, bytes: z.bytes, n: int64(len(z.bytes)), want: z.want, mode: 1025, merged: true})
+			if c.Replay {
+				c.ReplayScope = "ZOO"
+			}
+		})
+		c.ReplayScope = save
+	}
 	// partners for depth 2
 	partners := [][]model.Doc{
 		{gen.MixDoc(2, "p", 0), gen.MixDoc(1, "p", 1)},
